@@ -1,5 +1,7 @@
 """A4 provenance (backward value slice to a descriptor) and A5 guard context
 (conditions that hold on every path to a program point)."""
+import re
+
 from dataflow import assigned_locals
 from facts import callee_name
 
@@ -38,6 +40,39 @@ def _split_top(s):
         else:
             cur.append(ch)
     out.append("".join(cur))
+    return out
+
+
+def _ok_payload(s):
+    """ok(Result::Ok(X)) -> X;  ok(phi(Result::Ok(X)|err(..)|..)) -> X when X is the only success alternative
+    (the joined result of an inlined helper: its payload is what the helper returned on success)."""
+    inner = s[3:-1]
+    alts = _split_alts(inner[4:-1]) if inner.startswith("phi(") and inner.endswith(")") else [inner]
+    oks = []
+    for a in alts:
+        m = re.match(r"^(?:Result::Ok|Option::Some|ControlFlow::Continue)\((.*)\)$", a)
+        if m:
+            oks.append(m.group(1))
+        elif a.startswith("err(") or a.startswith("Result::Err(") or a == "Option::None()":
+            continue
+        else:
+            return s
+    return oks[0] if len(oks) == 1 else s
+
+
+def _split_alts(s):
+    out, depth, cur = [], 0, ""
+    for ch in s:
+        if ch in "([":
+            depth += 1
+        elif ch in ")]":
+            depth -= 1
+        if ch == "|" and depth == 0:
+            out.append(cur)
+            cur = ""
+        else:
+            cur += ch
+    out.append(cur)
     return out
 
 
@@ -146,6 +181,8 @@ class Prov:
             if pending_variant is not None and k == "field" and e["name"] == "0" and pending_variant in ("Some", "Ok", "Continue", "Err", "Break"):
                 base = s[:-(len(pending_variant) + 4)]
                 s = ("ok(%s)" if pending_variant in ("Some", "Ok", "Continue") else "err(%s)") % base
+                if s.startswith("ok("):
+                    s = _ok_payload(s)
                 pending_variant = None
                 continue
             pending_variant = None
